@@ -1121,4 +1121,66 @@ example : (gatherOrder [{ duid := 7, path := [1], name := 0 }, { duid := 3, path
     gatherSorted [{ duid := 7, path := [1], name := 0 }, { duid := 3, path := [], name := 1, fixed := some 2 },
                   { duid := 5, path := [1, 2], name := 2 }] = .ok [some 1, some 2, some 0] := by decide
 
+/-- **Reset of a register with fields** (`CSRFieldAggregate.get_reset`): bit `b` of the composed reset value is set iff
+    some field has the corresponding bit of its own reset value set at its offset. -/
+theorem fields_reset_bits (fs : List FieldSpec) (b : Nat) :
+    (fieldsReset fs).testBit b = fs.any fun f => decide (f.offset ≤ b) && f.reset.testBit (b - f.offset) := by
+  induction fs with
+  | nil => simp [fieldsReset]
+  | cons f fs ih => simp only [fieldsReset, Nat.testBit_or, ih, List.any_cons, Nat.testBit_shiftLeft, ge_iff_le]
+
+/-! ### Memory windows over whole histories -/
+
+/-- **Initial contents**: after reset, word `a` of the window holds `init[a]` truncated to the memory width (0 beyond
+    the initialiser). -/
+theorem sram_init (c : SramCfg) (a : Nat) (ha : a < c.depth) :
+    ((sram c).run []).mem.getD a 0 = trunc c.width (c.init.getD a 0) := by
+  show (sram c).init.mem.getD a 0 = _
+  simp [sram, List.getD_eq_getElem?_getD, ha]
+
+/-- **A read-only window never changes**, whatever the bus does, for every history. -/
+theorem sram_read_only_history (c : SramCfg) (hro : c.readOnly = true) (ins : List SramIn) :
+    ((sram c).run ins).mem = ((sram c).run []).mem := by
+  show ((sram c).runFrom (sram c).init ins).mem = (sram c).init.mem
+  exact Machine.invariant_runFrom (sram c) (fun s => s.mem = (sram c).init.mem)
+    (fun s i h => by rw [sram_read_side_effect_free c s i (Or.inr hro)]; exact h) ins _ rfl
+
+/-- **A memory word keeps its value over any stretch of cycles that does not complete a write to it** (reads anywhere,
+    accesses to other windows or banks, writes to other words, staged sub-word writes), from any state. -/
+theorem sram_word_stable (c : SramCfg) (a : Nat) (quiet : List SramIn) (s : SramState)
+    (hq : ∀ i ∈ quiet, ((c.sel i.bus.adr && i.bus.we && !c.readOnly) && (i.bus.adr % 2 ^ c.wb == c.cpm - 1)) = true →
+      c.clampAdr (c.portAdr i.bus.adr i.page) ≠ a) :
+    ((sram c).runFrom s quiet).mem.getD a 0 = s.mem.getD a 0 := by
+  induction quiet generalizing s with
+  | nil => rfl
+  | cons i is ih =>
+    show ((sram c).runFrom ((sram c).next s i) is).mem.getD a 0 = _
+    rw [ih _ (fun j hj => hq j (List.mem_cons_of_mem _ hj)), sram_next_mem]
+    split
+    · rename_i hw
+      have hne := hq i (List.mem_cons_self ..) hw
+      simp only [List.getD_eq_getElem?_getD]
+      rw [List.getElem?_set_ne hne]
+    · rfl
+
+/-- **Write, any quiet stretch, read back** (one bus word per memory word): the value written to a word is what a read
+    of that word returns after any number of cycles that do not write it — over all such schedules. -/
+theorem sram_write_quiet_read (c : SramCfg) (s : SramState) (iw ir : SramIn) (quiet : List SramIn)
+    (hcpm : c.cpm = 1) (hw : c.width ≤ c.bw) (hro : c.readOnly = false)
+    (hsel : c.sel iw.bus.adr = true) (hwe : iw.bus.we = true)
+    (hin : c.clampAdr (c.portAdr iw.bus.adr iw.page) < s.mem.length)
+    (hq : ∀ i ∈ quiet, ((c.sel i.bus.adr && i.bus.we && !c.readOnly) && (i.bus.adr % 2 ^ c.wb == c.cpm - 1)) = true →
+      c.clampAdr (c.portAdr i.bus.adr i.page) ≠ c.clampAdr (c.portAdr iw.bus.adr iw.page))
+    (hrsel : c.sel ir.bus.adr = true) (hrwe : ir.bus.we = false)
+    (hsame : c.clampAdr (c.portAdr ir.bus.adr ir.page) = c.clampAdr (c.portAdr iw.bus.adr iw.page)) :
+    sramDatR c ((sram c).next ((sram c).runFrom ((sram c).next s iw) quiet) ir) = trunc c.width iw.bus.datW := by
+  have hwb : c.wb = 0 := by simp [SramCfg.wb, hcpm, log2ceil]
+  have h1 := sram_write_read c s iw hcpm hw hro hsel hwe hin
+  rw [sram_next_read] at h1
+  simp only [hsel, if_true, hcpm, hwb, Nat.pow_zero, Nat.mod_one, Nat.sub_self, Nat.zero_mul, Nat.one_mul] at h1
+  rw [sram_next_read, sram_read_side_effect_free c _ ir (Or.inl hrwe)]
+  simp only [hrsel, if_true, hcpm, hwb, Nat.pow_zero, Nat.mod_one, Nat.sub_self, Nat.zero_mul, Nat.one_mul]
+  rw [hsame, sram_word_stable c _ quiet _ hq]
+  exact h1
+
 end Litex.C12
